@@ -20,7 +20,8 @@
      csv_row               the model of one jsontocsv row. *)
 From Verif Require Import Prelude Model.Response.
 From Verif Require Import Proofs.Response Proofs.ResponseAgg Proofs.ResponseCsv.
-From Coq Require Import QArith Qabs Permutation.
+From Verif Require Import Proofs.ResponseExact Proofs.ResponseDisj Proofs.ResponseDisj2.
+From Coq Require Import QArith Qabs Qround Permutation.
 Open Scope Z_scope.
 
 (* ---------------------------------------------------------------- the validator decides the specification *)
@@ -34,6 +35,38 @@ Theorem C19_model_meets_spec : forall o r,
   (o_path o = [] -> o_fwd o = None) -> pathresult o = Ok r -> Spec o r.
 Proof. exact pathresult_spec. Qed.
 Print Assumptions C19_model_meets_spec.
+
+(* ---------------------------------------------------------------- exact shape: what was computed and nothing else *)
+(* response_exact (the validator the check runs on every real response) = Spec and Shape, where Shape says: the
+   response object has 2 members, 'no-path' has 1 (no path) or 2, path-properties has 2 (3 with 'z-a-path-metric'),
+   a metric list has 11 entries of 2 members, a route object is { 'path-route-object': { 'index', <one kind> } } whose
+   body (hop / each label / transponder) has 2 members *)
+Theorem C19_exact : forall o resp, response_exact o resp = true <-> Spec o resp /\ Shape resp.
+Proof. exact response_exact_spec. Qed.
+Print Assumptions C19_exact.
+
+Theorem C19_model_exact : forall o r,
+  (o_path o = [] -> o_fwd o = None) -> pathresult o = Ok r -> response_exact o r = true.
+Proof. exact pathresult_exact. Qed.
+Print Assumptions C19_model_exact.
+
+(* consequently the keys are exactly the expected ones ... *)
+Theorem C19_exact_keys : forall o resp, Spec o resp -> Shape resp ->
+  exists kv, resp = JObj kv /\
+    Permutation ["response-id"; match o_block o with None => "path-properties" | Some _ => "no-path" end]%string (map fst kv) /\
+    (reports_path o = true ->
+     exists ppkv, response_pp resp = Some (JObj ppkv) /\
+       Permutation (if o_bidir o then ["path-metric"; "z-a-path-metric"; "path-route-objects"]
+                    else ["path-metric"; "path-route-objects"])%string (map fst ppkv)).
+Proof. exact exact_keys. Qed.
+Print Assumptions C19_exact_keys.
+
+(* ... and a metric list has one entry per metric of the code's list and no other *)
+Theorem C19_exact_metric_entries : forall r o j,
+  MetricsSpec r o j -> MetricsShape j ->
+  exists pm, j = Some (JArr pm) /\ Permutation METRIC_NAMES (metric_types pm).
+Proof. exact exact_metric_entries. Qed.
+Print Assumptions C19_exact_metric_entries.
 
 (* ---------------------------------------------------------------- what Spec tells the reader of a response *)
 (* route: per element of the computed path its hop, its labels when served, its transponder when it is a
@@ -141,6 +174,80 @@ Theorem C19_aggregation_bidir : forall reqs disj out disj',
 Proof. exact aggregation_bidir. Qed.
 Print Assumptions C19_aggregation_bidir.
 
+(* ---------------------------------------------------------------- aggregation and the synchronisation groups *)
+(* the group comparison of compare_reqs decides "same shape": neither request is in a group, or both are and their
+   partner sets agree group by group (equal multisets of sets) *)
+Theorem C19_same_sets : forall a b, same_sets a b = true <-> SameSets a b.
+Proof. exact same_sets_spec. Qed.
+Print Assumptions C19_same_sets.
+Theorem C19_same_disj : forall id1 id2 disj, same_disj id1 id2 disj = true <-> SameShape id1 id2 disj.
+Proof. exact same_disj_spec. Qed.
+Print Assumptions C19_same_disj.
+
+(* a request is only ever absorbed by a different, fixed-mode request with equal compared fields and groups of the same
+   shape: a request in groups of another shape is never absorbed *)
+Theorem C19_absorbed_same_shape : forall req disj this_r, can_absorb req disj this_r = true ->
+  a_id req <> a_id this_r /\ key_eqb (a_key req) (a_key this_r) = true /\ a_mode_set this_r = true /\
+  SameShape (a_id req) (a_id this_r) disj.
+Proof. exact absorbed_same_shape. Qed.
+Print Assumptions C19_absorbed_same_shape.
+Theorem C19_step_same_shape : forall local disj t local' disj', agg_step (local, disj) t = (local', disj') ->
+  disj' = disj \/
+  exists req this_r, by_tag local t = Some req /\ In this_r local /\
+    SameShape (a_id req) (a_id this_r) disj /\
+    disj' = groups_after (a_id req) (a_id this_r) (a_id (merge this_r req)) disj.
+Proof. exact step_same_shape. Qed.
+Print Assumptions C19_step_same_shape.
+
+(* the groups after absorbing the request named a into the request named b under the joined id n *)
+Theorem C19_groups_after : forall a b n disj,
+  let G' := groups_after a b n disj in
+  Forall (fun d' => ~ In b d') G' /\
+  G' = filter (fun d' => negb (mem_s b d')) (map (rename a n) disj) /\
+  (forall d', In d' G' -> exists d, In d disj /\ d' = rename a n d) /\
+  (length G' <= length disj)%nat /\
+  (forall d, In d disj -> In a d ->
+     In n (rename a n d) /\ (NoDup d -> n <> a -> ~ In a (rename a n d)) /\
+     (~ In b (rename a n d) -> In (rename a n d) G')) /\
+  (forall d, In d disj -> ~ In a d -> ~ In b d -> In d G').
+Proof. exact groups_after_spec. Qed.
+Print Assumptions C19_groups_after.
+
+(* the constraints of a removed group live on: it has a twin that named the absorbed request with the same partners,
+   and the renamed twin survives, naming the joined request together with exactly those partners *)
+Theorem C19_constraints_live_on : forall req disj this_r,
+  can_absorb req disj this_r = true ->
+  let a := a_id req in let b := a_id this_r in let n := a_id (merge this_r req) in
+  forall g, In g disj -> In b g ->
+  exists g1, In g1 disj /\ In a g1 /\ ~ In b g1 /\
+    set_equiv (others a g1) (others b g) /\
+    In (rename a n g1) (groups_after a b n disj) /\
+    (forall x, x <> a -> (In x (rename a n g1) <-> x = n \/ (In x g /\ x <> b))).
+Proof. exact absorbed_constraints_live_on. Qed.
+Print Assumptions C19_constraints_live_on.
+
+(* the whole run invents no group: every remaining group is an input group after some renamings (same length) *)
+Theorem C19_aggregation_groups : forall reqs disj out disj',
+  requests_aggregation reqs disj = (out, disj') ->
+  (length disj' <= length disj)%nat /\ forall d', In d' disj' -> exists d, In d disj /\ derived d d'.
+Proof. exact aggregation_groups. Qed.
+Print Assumptions C19_aggregation_groups.
+Theorem C19_derived_length : forall d d', derived d d' -> length d' = length d.
+Proof. exact derived_length. Qed.
+Print Assumptions C19_derived_length.
+
+(* with distinct '|'-free ids and groups that name existing requests at most once each: reported ids stay distinct and
+   no group names a request that no longer exists (cf. c12_aggregate_preserves / no_stale for the C12 model) *)
+Theorem C19_aggregation_no_stale : forall reqs disj out disj',
+  fresh reqs -> NoDup (map a_id reqs) -> barfree reqs ->
+  Forall (fun d => NoDup d) disj -> (forall d x, In d disj -> In x d -> In x (map a_id reqs)) ->
+  requests_aggregation reqs disj = (out, disj') ->
+  NoDup (map a_id out) /\
+  Forall (fun d => NoDup d) disj' /\
+  (forall d x, In d disj' -> In x d -> In x (map a_id out)).
+Proof. exact aggregation_no_stale. Qed.
+Print Assumptions C19_aggregation_no_stale.
+
 (* ---------------------------------------------------------------- CSV export *)
 Theorem C19_csv_served : forall o resp eqp margin pdbm row,
   Spec o resp -> o_block o = None -> ends_trx o ->
@@ -189,6 +296,54 @@ Theorem C19_csv_blocked : forall o resp eqp margin pdbm row r,
        else sget "reversed path SNR-0.1nm (min)" row = None).
 Proof. exact csv_consistent_blocked. Qed.
 Print Assumptions C19_csv_blocked.
+
+(* every numeric cell: `prints row col pm name f v` = column col shows f(entry `name` of the metric list pm), and
+   that entry states the value v.  Forward columns print 'path-metric' (forward receiver), the "reversed path"
+   columns print 'z-a-path-metric' (reverse receiver) and are empty unless the request is bidirectional; averages are
+   rounded again (round_of), min / max / penalties are printed raw (raw_of) *)
+Theorem C19_csv_cells_served : forall o resp eqp margin pdbm row,
+  Spec o resp -> o_block o = None -> ends_trx o ->
+  csv_row eqp margin pdbm resp = Ok row ->
+  exists rx mname md m1 m2 m4 lo hi p1 p2 p3,
+    o_fwd o = Some rx /\ o_mode o = Some mname /\ mode_lookup eqp (o_tsp o) mname = Some md /\
+    receiver_figures rx m1 m2 m4 lo hi p1 p2 p3 /\
+    metric_columns "" row (metric_list "path-metric" resp) m1 m2 m4 lo hi p1 p2 p3 /\
+    sget "baud rate (Gbaud)" row = Some (CNum (round2q (m_baud md / giga))) /\
+    sget "bit rate" row = Some (CNum (round2q (m_bitrate md / giga))) /\
+    sget "input power (dBm)" row = Some (CNum (round2q pdbm)) /\
+    (let nb := Qceiling (round2q (o_bw o / giga) / round2q (m_bitrate md / giga)) in
+     sget "nb of tsp pairs" row = Some (CNum (inject_Z nb)) /\
+     sget "total cost" row = Some (CNum (inject_Z nb * m_cost md)%Q)) /\
+    (if o_bidir o then
+       exists rv n1 n2 n4 lo' hi' r1 r2 r3,
+         o_rev o = Some rv /\ receiver_figures rv n1 n2 n4 lo' hi' r1 r2 r3 /\
+         metric_columns "reversed path " row (metric_list "z-a-path-metric" resp) n1 n2 n4 lo' hi' r1 r2 r3
+     else Forall (fun col => sget col row = None) REV_FIELDS).
+Proof. exact csv_cells_served. Qed.
+Print Assumptions C19_csv_cells_served.
+
+Theorem C19_csv_cells_blocked : forall o resp eqp margin pdbm row r,
+  Spec o resp -> o_block o = Some r -> mem_s r BLOCKING_NOPATH = false ->
+  csv_row eqp margin pdbm resp = Ok row ->
+  exists rx m1 m2 m4 lo hi p1 p2 p3,
+    o_fwd o = Some rx /\ receiver_figures rx m1 m2 m4 lo hi p1 p2 p3 /\
+    metric_columns "" row (metric_list "path-metric" resp) m1 m2 m4 lo hi p1 p2 p3 /\
+    sget "input power (dBm)" row = Some (CNum (round2q pdbm)) /\
+    sget "total cost" row = None /\
+    (if o_bidir o then
+       exists rv n1 n2 n4 lo' hi' r1 r2 r3,
+         o_rev o = Some rv /\ receiver_figures rv n1 n2 n4 lo' hi' r1 r2 r3 /\
+         metric_columns "reversed path " row (metric_list "z-a-path-metric" resp) n1 n2 n4 lo' hi' r1 r2 r3
+     else Forall (fun col => sget col row = None) REV_FIELDS).
+Proof. exact csv_cells_blocked. Qed.
+Print Assumptions C19_csv_cells_blocked.
+
+(* a printed average is the twice-rounded value of the response entry, i.e. round2 of the exact mean *)
+Theorem C19_csv_rounded_value : forall row col pm name x,
+  prints row col pm name round_of (MNum (round2q x)) ->
+  exists c, sget col row = Some (CNum c) /\ (c == round2q x)%Q.
+Proof. exact prints_round_value. Qed.
+Print Assumptions C19_csv_rounded_value.
 
 (* the export never raises on a response that meets Spec (path between two transceivers, mode in the library) *)
 Theorem C19_csv_defined : forall o resp eqp margin pdbm,
@@ -267,4 +422,52 @@ Proof.
   split; [split; [repeat constructor; cbn; intuition discriminate|repeat constructor]|].
   split; [repeat constructor|].
   eexists. vm_compute. reflexivity.
+Qed.
+
+(* exact shape: the model's documents pass the strict validator; one extra key or one extra metric entry is refused *)
+Definition add_key (j : json) : json := match j with JObj kv => JObj (kv ++ [("x"%string, JNull)]) | _ => j end.
+Example ex_exact :
+  (exists r, pathresult ex_served = Ok r /\ response_exact ex_served r = true /\
+             response_ok ex_served (add_key r) = true /\ response_exact ex_served (add_key r) = false) /\
+  (exists r, pathresult ex_blocked = Ok r /\ response_exact ex_blocked r = true) /\
+  (exists r, pathresult ex_nopath = Ok r /\ response_exact ex_nopath r = true).
+Proof. repeat split; eexists; repeat split; vm_compute; reflexivity. Qed.
+
+(* CSV cells of the served example: transponder pairs ceil(300 / 100) = 3, cost 3, reversed min SNR = 27.12 *)
+Example ex_csv_cells :
+  exists r row, pathresult ex_served = Ok r /\ csv_row ex_eqp 2 0 r = Ok row /\
+    sget "nb of tsp pairs" row = Some (CNum (3 # 1)) /\ sget "total cost" row = Some (CNum (3 # 1)) /\
+    sget "SNR-0.1nm (min)" row = Some (CNum (2412 # 100)) /\
+    sget "reversed path SNR-0.1nm (min)" row = Some (CNum (2712 # 100)) /\
+    sget "CD_penalty" row = Some (CStr "Infinity") /\ sget "PMD_penalty" row = Some (CStr "not evaluated").
+Proof. do 2 eexists. repeat split; vm_compute; reflexivity. Qed.
+
+(* groups: twins r0, r1 (fixed mode) each disjoint from r2 and from r3: r1 absorbs r0, the groups of r0 are renamed,
+   the groups that named r1 are removed; with a group of another shape ([r1; r4]) nothing is aggregated *)
+Definition ex_t (tag : nat) (id : string) (mode : fld) (ms : bool) : areq :=
+  mkA tag id [tag] (ex_k mode) ms (100 # 1) [None] [None] false.
+Definition ex_greqs : list areq :=
+  [ex_t 0 "r0" (FStr "mode 1") true; ex_t 1 "r1" (FStr "mode 1") true; ex_t 2 "r2" FNone false;
+   ex_t 3 "r3" FNone false; ex_t 4 "r4" FNone false].
+Definition ex_groups : disjs := [["r0"; "r2"]; ["r0"; "r3"]; ["r1"; "r2"]; ["r1"; "r3"]]%string.
+Example ex_groups_run :
+  (exists out, requests_aggregation ex_greqs ex_groups = (out, [["r2"; "r1 | r0"]; ["r3"; "r1 | r0"]]%string) /\
+               map a_id out = ["r1 | r0"; "r2"; "r3"; "r4"]%string) /\
+  same_disj "r0" "r1" ex_groups = true /\
+  same_disj "r0" "r1" (ex_groups ++ [["r1"; "r4"]]%string) = false /\
+  (exists out, requests_aggregation ex_greqs (ex_groups ++ [["r1"; "r4"]]%string) = (out, ex_groups ++ [["r1"; "r4"]]%string) /\
+               map a_id out = ["r0"; "r1"; "r2"; "r3"; "r4"]%string).
+Proof. repeat split; try (eexists; split); vm_compute; reflexivity. Qed.
+
+(* the hypotheses of C19_aggregation_no_stale are satisfiable on that run *)
+Example ex_no_stale_hyps :
+  fresh ex_greqs /\ NoDup (map a_id ex_greqs) /\ barfree ex_greqs /\ Forall (fun d => NoDup d) ex_groups /\
+  (forall d x, In d ex_groups -> In x d -> In x (map a_id ex_greqs)).
+Proof.
+  split; [split; [repeat constructor; cbn; intuition discriminate|repeat constructor]|].
+  split; [repeat constructor; cbn; intuition discriminate|].
+  split; [repeat constructor|].
+  split; [repeat constructor; cbn; intuition discriminate|].
+  intros d x Hd Hx. cbn in Hd. cbn.
+  repeat (destruct Hd as [<-|Hd]; [cbn in Hx; intuition|]). destruct Hd.
 Qed.
